@@ -571,7 +571,7 @@ def wrapper(ctx, obs, rule='FWD'):
                               f'flag = {b[name].value} without / {o[name].value} with a cv descriptor', '', where(prog, f, g))
     # distance = self_i + self_j - 2 cross (polynomial over row@self, col@self, cross)
     ind = [s for s in ast.walk(f.node) if isinstance(s, ast.Assign) and isinstance(s.targets[0], ast.Tuple)
-           and isinstance(s.value, ast.Call) and _leaf(s.value.func) == 'row_col_indicator_rdm']
+           and isinstance(s.value, ast.Call) and _leaf(s.value.func) in ('row_col_indicator_rdm', 'triu_indices')]
     if ind and all(isinstance(t, ast.Name) for t in ind[0].targets[0].elts):
         rn, cn = (t.id for t in ind[0].targets[0].elts)
         cands = [s for s in ast.walk(f.node) if isinstance(s, ast.Assign) and isinstance(s.value, ast.BinOp)
@@ -581,6 +581,8 @@ def wrapper(ctx, obs, rule='FWD'):
             if isinstance(e, ast.BinOp) and isinstance(e.op, ast.MatMult) and isinstance(e.left, ast.Name) and e.left.id in (rn, cn) \
                     and isinstance(e.right, ast.Name):
                 return poly.sym('SELF_' + ('r' if e.left.id == rn else 'c') + ':' + e.right.id)
+            if isinstance(e, ast.Subscript) and isinstance(e.value, ast.Name) and isinstance(e.slice, ast.Name) and e.slice.id in (rn, cn):
+                return poly.sym('SELF_' + ('r' if e.slice.id == rn else 'c') + ':' + e.value.id)      # self[row] / self[col]
             if isinstance(e, ast.Name) and e.id not in (rn, cn):
                 return poly.sym('X:' + e.id)
             return None
@@ -598,11 +600,12 @@ def wrapper(ctx, obs, rule='FWD'):
         if okd is None:
             obs.unk(rule, q, 'distance = self_i + self_j - 2 * cross', 'combination of self and cross terms not recognised')
     else:
-        obs.unk(rule, q, 'distance = self_i + self_j - 2 * cross', 'row_col_indicator_rdm unpacking not found')
-    rc = [s for s in ast.walk(f.node) if isinstance(s, ast.Assign) and isinstance(s.value, ast.Call) and _leaf(s.value.func) == 'row_col_indicator_rdm']
+        obs.unk(rule, q, 'distance = self_i + self_j - 2 * cross', 'row / column index of the pairs (row_col_indicator_rdm, triu_indices) not found')
+    rc = [s for s in ast.walk(f.node) if isinstance(s, ast.Assign) and isinstance(s.value, ast.Call)
+          and _leaf(s.value.func) in ('row_col_indicator_rdm', 'triu_indices') and isinstance(s.targets[0], ast.Tuple)]
     for s in rc:
         e = inl.inline(s.value.args[0])
-        obs.check(isinstance(e, ast.Call) and _leaf(e.func) == 'len', rule, q, 'indicator matrices are built for the number of conditions',
+        obs.check(isinstance(e, ast.Call) and _leaf(e.func) == 'len', rule, q, 'the pair indices are built for the number of conditions',
                   f'`{norm(s)}`', '', where(prog, f, s))
     # self slots first, cross slots after: rdm[:n] / rdm[n:]
     sl = {norm(s.targets[0]): norm(s.value).replace(' ', '') for s in ast.walk(f.node) if isinstance(s, ast.Assign)
